@@ -1,4 +1,4 @@
-import BppProofs.Lemmas.AliasView
+import BppProofs.Lemmas.AliasOk
 /-!
 # C03 — aliased parameters track their source through every update, copy and renaming
 (src/Bpp/Numeric/AbstractParameterAliasable.{h,cpp}, ParameterAliasable.h, Parameter.{h,cpp})
@@ -94,6 +94,57 @@ theorem alias_constraints (c1 c2 : Option Con) (v : Rat) :
   · cases c1 <;> cases c2 <;> simp_all [aliasConSpec]
     split <;> simp_all
   · rw [((aliasConSpec_sem c1 c2 v).2 h1 h2).1]; simp
+
+/-- **alias_constraints, what the call does**: when `aliasParameters(p1, p2)` returns in a reachable
+world, the two parameters end with the constraints `aliasConSpec` computes from the ones they had
+(none/none untouched; the unconstrained one takes the other's; two different ones are both replaced
+by the intersection), and no other parameter object is touched. -/
+theorem alias_constraints_effect {w : World} (h : Inv w) {k : Nat} {o : Obj} (ho : w.objs k = some o) {p1 p2 : String}
+    (ok : (aliasPair w k p1 p2).err = none) :
+    ∃ i1 i2, find? w.heap o.params (o.pre ++ p1) = some i1 ∧ find? w.heap o.params (o.pre ++ p2) = some i2 ∧ i1 ≠ i2 ∧
+      ((aliasPair w k p1 p2).w.heap.get i1).con = (aliasConSpec (w.heap.get i1).con (w.heap.get i2).con).1 ∧
+      ((aliasPair w k p1 p2).w.heap.get i2).con = (aliasConSpec (w.heap.get i1).con (w.heap.get i2).con).2 ∧
+      ∀ j, j ≠ i1 → j ≠ i2 → (aliasPair w k p1 p2).w.heap.get j = w.heap.get j := by
+  have hi := h.obj k o ho
+  obtain ⟨⟨i1, i2, pos1, pos2, hi1, hi2, hn1, hn2, hind, hcons, heq, hnoanc, _⟩⟩ := aliasPair_done hi ho ok
+  have hm1 := List.mem_of_getElem? hi1
+  have hm2 := List.mem_of_getElem? hi2
+  have hne : i1 ≠ i2 := by
+    rintro rfl
+    exact hnoanc pos1 i1 Relation.ReflTransGen.refl hi1 hn2
+  obtain ⟨c1, c2, c3, _⟩ := aliasConstraints_spec hne hcons
+  refine ⟨i1, i2, (find?_iff hi.nodup).2 ⟨hm1, hn1⟩, (find?_iff hi.nodup).2 ⟨hm2, hn2⟩, hne, ?_, ?_, ?_⟩
+  · rw [heq]; exact c1
+  · rw [heq]; exact c2
+  · intro j h1 h2; rw [heq]; exact c3 j h1 h2
+
+/-- **the common value always satisfies the constraints both parameters had**: along every
+well-formed history (any continuation `more` of any reachable world) every parameter object
+satisfies its own constraint, and constraints never widen — so the value a parameter holds at any
+later time is accepted by every constraint it (and, when they are equal, the parameter it follows)
+ever had. -/
+theorem values_satisfy_constraints (ops more : List Op) (hw : WfRun World.init (ops ++ more))
+    (i : ObjId) (hi : i < (run World.init ops).heap.next) :
+    accOpt ((run World.init ops).heap.get i).con (val (run World.init (ops ++ more)) i) = true := by
+  have hrun : ∀ (a b : List Op) (w : World), run w (a ++ b) = run (run w a) b := by
+    intro a; induction a with
+    | nil => intro b w; rfl
+    | cons x t ih => intro b w; exact ih b _
+  have hwf : ∀ (a b : List Op) (w : World), WfRun w (a ++ b) → WfRun w a ∧ WfRun (run w a) b := by
+    intro a; induction a with
+    | nil => intro b w h; exact ⟨trivial, h⟩
+    | cons x t ih => intro b w h; exact ⟨⟨h.1, (ih b _ h.2).1⟩, (ih b _ h.2).2⟩
+  have hall := heapOk_run (ops ++ more) inv_init hw (fun j hj => absurd hj (Nat.not_lt_zero _))
+  have hnar := narrow_run more (run World.init ops)
+  rw [hrun] at hall ⊢
+  have hlt : i < (run (run World.init ops) more).heap.next := Nat.lt_of_lt_of_le hi hnar.1
+  apply hnar.2 i hi
+  have := hall i hlt
+  simp only [Par.ok, Par.rejects] at this
+  simp only [accOpt, val]
+  cases hc : ((run (run World.init ops) more).heap.get i).con with
+  | none => rfl
+  | some c => rw [hc] at this; simpa using this
 
 /-- non-vacuity: `[0,2] ∩ ]1,3]` -/
 example : aliasConSpec (some ⟨.fin 0, .fin 2, true, true⟩) (some ⟨.fin 1, .fin 3, false, true⟩)
